@@ -264,6 +264,15 @@ def k_view_history(ctx, seed):
         else:
             t = tmm.PusTm.unpack(bytes(t.pack()), len(ts))
     ops = []
+
+    def eq_now():
+        t_eq = build("ctor", f["apid"], f["count"], f["service"], f["subservice"], f["mc"], f["dest"], f["tref"], f["ver"], ts, f["data"])
+        if len(ops) % 2:
+            t_eq.pack()
+        oke, e = attempt(lambda: (t == t_eq) and (t_eq == t))
+        return ctx.check("tm.view_history", oke and e is True, "object_unequal_to_a_fresh_one_with_the_same_field_values",
+                         "after_field_change" if any(o in ops for o in ("apid", "tm_data", "seq_count")) else "unchanged", dict(case, ops=list(ops)), observed=repr(e))
+
     for step in range(hist_len(r, 2, 9)):
         op = r.choice(("pack", "calc_crc", "view", "apid", "tm_data", "pack_cached", "seq_count", "poison", "calc_crc_cached") + (("wrapper_pack", "wrapper_pack") if wrapper is not None else ()))
         ops.append(op)
@@ -281,6 +290,8 @@ def k_view_history(ctx, seed):
         elif op == "seq_count":
             f["count"] = rand_uint(r, 14)
             t.sp_header.seq_count = f["count"]
+            if not eq_now():
+                return
             continue
         elif op == "pack_cached":
             t.pack()
@@ -293,10 +304,14 @@ def k_view_history(ctx, seed):
         elif op == "apid":
             f["apid"] = rand_uint(r, 11)
             t.apid = f["apid"]
+            if not eq_now():
+                return
             continue
         else:
             f["data"] = r.randbytes(r.randrange(0, 12))
             t.tm_data = f["data"]
+            if not eq_now():
+                return
             continue
         want = R.tm(f["apid"], f["count"], f["service"], f["subservice"], f["mc"], f["dest"], f["tref"], ts, f["data"], version=f["ver"])
         what = "space_packet_view" if op == "view" else "pack"
@@ -305,6 +320,8 @@ def k_view_history(ctx, seed):
             what = "service17_wrapper_pack"
         ctx.table("view_history_ops", op)
         V.sp_views(ctx, "tm.view_history", t, want, dict(case, ops=ops), "PusTm/history")
+        if not eq_now():
+            return
         if wrapper is not None:
             V.sp_views(ctx, "tm.view_history", wrapper, want, dict(case, ops=ops), "Service17Tm/history")
         if not ctx.check("tm.view_history", got == want, f"{what}_differs_from_current_fields", _octet_diff(got, want, len(ts)) + ("/after_field_change" if changed else ""),
